@@ -208,29 +208,42 @@ theorem lookupD_absPA_dflt {pa : PA} (nm : String) (hm : nm ∈ pa.props.map Col
 
 /-! ### ensure_properties -/
 
+/-- the names `ensure_properties` walks -/
+def ensureNames (src : PA) (props : Option (List String)) : List String :=
+  match props with
+  | some [] => src.props.map Col.name
+  | some ps => ps
+  | none => src.props.map Col.name
+
+theorem ensureProperties_eq' (pa src : PA) (props : Option (List String)) :
+    pa.ensureProperties src props = (ensureNames src props).foldl (ensureStep src) (some pa) := by
+  cases props with
+  | none => rfl
+  | some l => cases l <;> rfl
+
+theorem ensureNames_abs (src : PA) (props : Option (List String)) :
+    specEnsureNames props (absPA src) = ensureNames src props := by
+  unfold specEnsureNames ensureNames
+  rw [absPA_dflt_keys]
+  cases props with
+  | none => rfl
+  | some l => cases l <;> rfl
+
+theorem cloneNames_abs (pa : PA) (props : Option (List String)) :
+    specNames props (absPA pa) = cloneNames pa props := by
+  unfold cloneNames specNames
+  cases props with
+  | none => exact absPA_dflt_keys pa
+  | some ps => rfl
+
 theorem ensure_refines {pa src : PA} (h : Inv pa) (hs : Inv src) (props : Option (List String))
-    (hnames : ∀ nm ∈ (match props with
-        | some [] => src.props.map Col.name
-        | some ps => ps
-        | none => src.props.map Col.name), nm ∈ src.props.map Col.name) :
+    (hnames : ∀ nm ∈ ensureNames src props, nm ∈ src.props.map Col.name) :
     ∃ pa', pa.ensureProperties src props = some pa' ∧
       absPA pa' = specEnsure props (absPA pa) (absPA src) := by
-  rw [ensureProperties_eq]
-  have hsn : (match props with
-        | some [] => recKeys (absPA src).dflt
-        | some ps => ps
-        | none => recKeys (absPA src).dflt) = (match props with
-        | some [] => src.props.map Col.name
-        | some ps => ps
-        | none => src.props.map Col.name) := by
-    rw [absPA_dflt_keys]
+  rw [ensureProperties_eq']
   unfold specEnsure
-  simp only []
-  rw [hsn]
-  generalize (match props with
-        | some [] => src.props.map Col.name
-        | some ps => ps
-        | none => src.props.map Col.name) = names at hnames ⊢
+  rw [ensureNames_abs]
+  generalize ensureNames src props = names at hnames ⊢
   obtain ⟨r, hr, hq⟩ := foldl_opt_exists (ensureStep src)
     (fun pre a => Inv a ∧ absPA a = pre.foldl (specEnsureStep (absPA src)) (absPA pa)) names
     (fun pre b suf a hl hq => by
@@ -350,15 +363,7 @@ theorem emptyClone_spec {pa : PA} (h : Inv pa) (props : Option (List String))
   refine ⟨_, rfl, InvF.toInv (pa := { r with name := _, outputs := _ }) hir.toF, hn0, ?_, ?_⟩
   · rw [hcong]
     unfold specEmptyClone
-    simp only []
-    have hk : (match props with
-        | some ps => ps
-        | none => recKeys (absPA pa).dflt) = cloneNames pa props := by
-      unfold cloneNames
-      cases props with
-      | none => exact absPA_dflt_keys pa
-      | some ps => rfl
-    rw [hk, ← habs]
+    rw [cloneNames_abs, ← habs]
     show (⟨defaultParticle r, particles r⟩ : RA) = _
     rw [particles_of_n_zero r hn0]
     rfl
